@@ -678,6 +678,14 @@ def execute(sc):
             'nontrivial': nontrivial, 'sim_time': CLOCK.advanced, 'sample': sample, 'interleavings': [sched_dig]}
 
 
+OPT_SAMPLE = {'quick': 1600, 'thorough': 3000}     # scenarios re-executed under python -O (cheap here; every catalogue entry must get its share)
+
+
+def classify(sc):
+    """Class label for the stratified python -O sample: the function the first client calls first."""
+    return sc['clients'][0][0]['entry'] if sc.get('clients') and sc['clients'][0] else '-'
+
+
 def shrink(sc, v):
     def cp():
         return copy.deepcopy(sc)
